@@ -11,7 +11,7 @@ PROPERTY = "C17"
 RULE = (
     "word lists with lengths from {0..300 dense, 2^k-1/2^k/2^k+1 up to 2^20 (quick) or 2^23 (thorough), 65535/65536/65537, random up to 70000}, "
     "contents random 32-bit incl. words that look like driver-action tags, x 6 accelerators, through api.npu_create_driver_payload; "
-    "thorough adds the two giants 2^24-1 (accepted) and 2^24 (rejected). Part B: every command_stream tensor of generated compiled networks. "
+    "plus one long list per high length bit (2^21+3, 2^22+5, 2^23+7), 2^24-1 (accepted) and 2^24 (rejected). Part B: every command_stream tensor of generated compiled networks. "
     "non-trivial = length > 65535 (both length sub-fields used) or a network artefact; distinct = (accelerator, length, hash of words)."
 )
 ASSUMPTIONS = ["config/id word layout and accelerator table pinned in lib/hw.py (DESIGN.md Appendix A)"]
@@ -120,7 +120,8 @@ def parts(ctx):
     if not ctx.quick:
         ps += [Part("giant%d" % i, giants, [n]) for i, n in enumerate((2 ** 24 - 1, 2 ** 24, 2 ** 24 + 1))]
     else:
-        ps += [Part("toolong", giants, [2 ** 24])]
+        # one length per high bit of the 24-bit field (constant words, so the lists are cheap) + the first rejected length
+        ps += [Part("big%d" % i, giants, [n]) for i, n in enumerate((2 ** 21 + 3, 2 ** 22 + 5, 2 ** 23 + 7, 2 ** 24 - 1, 2 ** 24))]
     try:
         import props.e2e_parts as e2e
 
